@@ -60,18 +60,23 @@ class StringParser:
         return self.text[i:i+1]
 
     def nextToken(self, extra=None):
+        """Get next token as tuple (isDelimiter, token).
+
+        Literal text is never a delimiter, even if it consists solely of an
+        escaped delimiter character.
+        """
         delim=['\"', '\'', '$']
         if extra: delim.extend(extra)
 
         # EOS?
         i = start = self.index
         if i >= self.end:
-            return None
+            return (True, None)
 
         # directly on delimiter?
         if self.text[i] in delim:
             self.index = i+1
-            return self.text[i]
+            return (True, self.text[i])
 
         # scan
         tok = []
@@ -85,7 +90,7 @@ class StringParser:
             i += 1
         tok.append(self.text[start:i])
         self.index = i
-        return "".join(tok)
+        return (False, "".join(tok))
 
     def getRestOfName(self):
         """Get remainder of bare variable name"""
@@ -126,9 +131,11 @@ class StringParser:
                       such substitutions.
         """
         s = []
-        tok = self.nextToken(delim)
-        while tok not in delim:
-            if tok == '"':
+        isDelim, tok = self.nextToken(delim)
+        while not isDelim or tok not in delim:
+            if not isDelim:
+                s.append(tok)
+            elif tok == '"':
                 s.append(self.getString(['"'], False, subst))
             elif tok == '\'':
                 s.append(self.getSingleQuoted())
@@ -146,9 +153,7 @@ class StringParser:
                 if None not in delim:
                     raise ParseError('Unexpected end of string')
                 break
-            else:
-                s.append(tok)
-            tok = self.nextToken(delim)
+            isDelim, tok = self.nextToken(delim)
         else:
             if keep: self.index -= 1
         return "".join(s)
